@@ -1868,7 +1868,7 @@ def work_cases(rng, thorough):
     for R, C in [(70, 70), (110, 110)] + ([(330, 330)] if thorough else []):
         out += [{"kind": "work", "shape": "grid_costs", "fn": "astar_grid", "R": R, "C": C, "directions": d, "heuristic": h, "family": "W"}
                 for d, h in ((4, "manhattan"), (8, "euclidean"))]
-    for n in [130, 1030, 4100] + ([10050] if thorough else []):
+    for n in [130, 1030, 4100] + ([6000] if thorough else []):
         out.append({"kind": "work", "shape": "bf_rev_chain", "fn": "bellman_ford", "n": n, "family": "W"})
     for n in [17, 129] + ([257] if thorough else []):
         out.append({"kind": "work", "shape": "fw_ring", "fn": "floyd_warshall", "n": n, "family": "W"})
